@@ -8,6 +8,7 @@ import (
 	"os"
 	"strings"
 	"time"
+	wdog "verifharness/wd"
 
 	"github.com/goatcms/goatcore/workers/jobsync"
 )
@@ -76,7 +77,7 @@ func cmdJobSync(args []string) error {
 					go func() { pool.Wait(); close(done) }()
 					select {
 					case <-done:
-					case <-time.After(2 * time.Second):
+					case <-wdog.After(2 * time.Second):
 						msg = "Wait blocks although nothing is reserved"
 					}
 				case "error":
